@@ -99,9 +99,14 @@ def step' (s : St) (toks : List String) : St × List String :=
     | some d => plain (step s (.crash d false))
     | none => (s, ["bad-op"])
   | ["write", _] => (s, ["ok"])   -- after a completed recovery the engine accepts and (fsbinlog commits) acknowledges a write
-  -- kill runs: last token = 1 if the binlog file ends with a torn record (cut off by the fixed writer: no difference)
+  -- kill runs: last token = 1 if the last binlog file ends with a partial record (kill inside write(2)): the current
+  -- code does not reopen such a binlog (model: `step s (.crash d true)` = open-error for a master)
   | ["recover", rows, off, ents, torn] => match parseNatList? rows, off.toNat?, parseEnts ents, torn.toNat? with
-    | some rows, some off, some l, some _ => (s, [recover rows off l])
+    | some rows, some off, some l, some t =>
+      if t == 1 then
+        let s0 := init true false [] (total (mkRecs 0 l))
+        (s, [(step { s0 with com := ⟨rows, off⟩ } (.crash s0.len true)).2])
+      else (s, [recover rows off l])
     | _, _, _, _ => (s, ["bad-op"])
   | _ => (s, ["bad-op"])
 
